@@ -1,0 +1,77 @@
+//go:build verif
+
+// Package verifhook contains instrumentation seams used only by the external
+// deterministic-simulation harness. They are compiled in only with the build
+// tag "verif"; without the tag every function is an empty, inlinable no-op.
+package verifhook
+
+import "sync/atomic"
+
+// Hooks is the set of callbacks a simulator may install.
+type Hooks struct {
+	// Yield is called at named scheduling points (never while holding a lock).
+	Yield func(site string, key uint64)
+	// GateAcquire/GateRelease shadow a sync.Mutex that may be held across a
+	// blocking wait, so that waiters block on a channel instead of the mutex.
+	GateAcquire func(g any)
+	GateRelease func(g any)
+	// RandRead may fill b deterministically; returns true if it did.
+	RandRead func(b []byte) bool
+	// PoolRelease is called first thing in Pool.ReleaseMessage.
+	PoolRelease func(m any)
+	// PoolPut is called right before the message is put into the sync.Pool (after Reset).
+	PoolPut func(m any)
+	// PoolAcquire is called right before AcquireMessage returns a message (recycled tells whether it came from the pool).
+	PoolAcquire func(m any, recycled bool)
+}
+
+var hooks atomic.Pointer[Hooks]
+
+// Install installs (or with nil removes) the hooks.
+func Install(h *Hooks) { hooks.Store(h) }
+
+// Enabled reports whether the package was built with the verif tag.
+const Enabled = true
+
+func Yield(site string, key uint64) {
+	if h := hooks.Load(); h != nil && h.Yield != nil {
+		h.Yield(site, key)
+	}
+}
+
+func GateAcquire(g any) {
+	if h := hooks.Load(); h != nil && h.GateAcquire != nil {
+		h.GateAcquire(g)
+	}
+}
+
+func GateRelease(g any) {
+	if h := hooks.Load(); h != nil && h.GateRelease != nil {
+		h.GateRelease(g)
+	}
+}
+
+func RandRead(b []byte) bool {
+	if h := hooks.Load(); h != nil && h.RandRead != nil {
+		return h.RandRead(b)
+	}
+	return false
+}
+
+func PoolRelease(m any) {
+	if h := hooks.Load(); h != nil && h.PoolRelease != nil {
+		h.PoolRelease(m)
+	}
+}
+
+func PoolPut(m any) {
+	if h := hooks.Load(); h != nil && h.PoolPut != nil {
+		h.PoolPut(m)
+	}
+}
+
+func PoolAcquire(m any, recycled bool) {
+	if h := hooks.Load(); h != nil && h.PoolAcquire != nil {
+		h.PoolAcquire(m, recycled)
+	}
+}
